@@ -149,6 +149,7 @@ func c06Check(ci interface{}) lib.Outcome {
 	applied := map[string]int{}
 	restricted := 0
 	splitDone := false
+	splitBeforeMarker := 0
 	// inserted lines are tagged through orig = -2 - k so they can be found again after later insertions
 	var inserted []c06Inserted
 	for _, op := range c.Ops {
@@ -225,8 +226,16 @@ func c06Check(ci interface{}) lib.Outcome {
 					k = len(f) - 1
 				}
 				m := c06SplitWord.FindStringSubmatch(f[k])
-				if m == nil || len(m[2]) < 4 || endsLikeHeader(f[k]) || (k == 0 && m[1] != "") || (!lastWord && endsLikeHeader(f[k+1])) {
+				if m == nil || len(m[2]) < 4 || endsLikeHeader(f[k]) || (k == 0 && m[1] != "") {
 					restricted++
+					continue
+				}
+				if !lastWord && endsLikeHeader(f[k+1]) && openClass("c06-split-before-marker-like-word") {
+					// known finding F28: after the remainder of a split word the tokenizer starts a new line buffer, so a
+					// following "2." or "a)" stands at position 0 and is dropped as a list marker. Excluded by construction
+					// while the finding is open, and counted.
+					restricted++
+					splitBeforeMarker++
 					continue
 				}
 				if !lastWord {
@@ -454,7 +463,7 @@ func c06Check(ci interface{}) lib.Outcome {
 		classes = append(classes, "used-classifier")
 	}
 	o := lib.Outcome{Classes: classes, Nontrivial: len(la) > 0 && len(applied) > 0,
-		Extra: map[string]int{"positions_restricted": restricted, "notices_inside_license_span(F14)": excludedInside}}
+		Extra: map[string]int{"positions_restricted": restricted, "notices_inside_license_span(F14)": excludedInside, "splits_before_marker_like_word(F28)": splitBeforeMarker}}
 	if o.Nontrivial {
 		o.FP = fmt.Sprintf("%v|%s|%v|%d", c.Thr, c.X.describe(), kinds, len(tx))
 		o.Sample = map[string]interface{}{"threshold": c.Thr, "x": c.X.describe(), "applied": applied, "licenses": fmtRecs(lb)}
